@@ -259,6 +259,7 @@ harness!(sd_ser_map__s8_4a, sd_ser_map, S8_4A);
 harness!(sd_ser_map__u0, sd_ser_map, U0);
 harness!(sd_ser_map__u8_3t, sd_ser_map, U8_3T);
 harness!(sd_ser_map__s8_e, sd_ser_map, S8_E);
+harness!(sd_ser_map__s8m0_4a, sd_ser_map, S8M0_4A);
 
 type Z = HashSet<u8, S>;
 fn sd_ser_set(sh: Shape) {
@@ -288,6 +289,7 @@ fn sd_ser_set(sh: Shape) {
 }
 harness!(sd_ser_set__s8_8g4, sd_ser_set, S8_8G4);
 harness!(sd_ser_set__s8_4a, sd_ser_set, S8_4A);
+harness!(sd_ser_set__s8m0_4a, sd_ser_set, S8M0_4A);
 
 /// a record of `n` entries with symbolic bytes
 fn any_record(n: usize, is_map: bool) -> Rec {
